@@ -1042,12 +1042,28 @@ def regress_scenarios():
     return out
 
 
+def extra_tree():
+    """second build of the working tree with the extra.h of FAQ 8.2 (a copy of all mail goes to 'log'), or None if extra.h changed form"""
+    import re as _re
+    t2 = vlib.Tree(tag="-extra")
+    xp = t2.path("extra.h")
+    x = open(xp).read()
+    x2 = _re.sub(r'#define QUEUE_EXTRA ""', '#define QUEUE_EXTRA "Tlog\\0"', _re.sub(r"#define QUEUE_EXTRALEN 0", "#define QUEUE_EXTRALEN 5", x))
+    if x2 == x or "Tlog" not in x2:
+        return None
+    open(xp, "w").write(x2)
+    t2.make(*M.TARGETS)
+    return t2
+
+
 def worker(job):
     tree, wid, seed, plan, fixed, listed = job
     LISTED.clear()
     LISTED.update(listed)
     stats = vlib.Stats()
-    r = M.Runner(tree, "c07-%d" % wid)
+    r = M.Runner(tree, "c07-%s" % wid)
+    if str(wid).startswith("x"):
+        r.extra_rcpt = b"log"
     local_ips = M.local_ipv4()
     for n, sc in enumerate(fixed):
         if n % 40 == 0 and M.flag_up(plan):
@@ -1081,6 +1097,17 @@ def run(ctx):
         ctx.stats.known_hits[sig] = n - 1
         ctx.known_finding(sig)
     ctx.notes["systematic_total"] = len(fixed)
+    if not ctx.stats.violations and not getattr(ctx, "only", None):
+        # the documented "copy of all mail" build (FAQ 8.2): the sessions that go through the real queue program once more - what is
+        # acknowledged is still exactly what was queued, next to the extra recipient (added after seeded change C07-M)
+        t2 = extra_tree()
+        if t2 is not None:
+            realq = [dict(sc, queue_extra=True) for sc in fixed if sc.get("qq", {}).get("mode") == "real" and not sc.get("fault") and not sc["qq"].get("trig") and not sc.get("sysfault")][:96]
+            st2 = vlib.run_workers(worker, [(t2, "x%d" % i, 1, dict(plan, min=0, max=0), realq[i::nw], listed) for i in range(nw)]) if realq else None
+            if st2 is not None:
+                st2.violations = [("FAQ 8.2 build (QUEUE_EXTRA \"Tlog\\0\"): " + m, sc_) for m, sc_ in st2.violations]
+                ctx.stats.merge(st2)
+                ctx.stats.cls("faq82_build_sessions", len(realq))
     need = ["d_smtpd", "d_qmtpd", "d_qmqpd", "acked", "neg_permanent", "neg_temporary", "cut", "qq_real", "hops", "size", "framing_bad"]
     starved = [c for c in need if not ctx.stats.classes.get(c)]
     if starved and not ctx.stats.violations and not getattr(ctx, "only", None):
@@ -1095,6 +1122,12 @@ def replay(ctx, path):
     LISTED.clear()
     LISTED.update(KNOWN_SIGS)          # replay is strict: nothing is remapped, nothing is suppressed
     SUPPRESS[0] = False
+    if sc.get("queue_extra"):
+        tree = extra_tree()
+        if tree is None:
+            raise vlib.HarnessError("extra.h cannot be switched to the FAQ 8.2 form")
     r = M.Runner(tree, "c07-replay")
+    if sc.get("queue_extra"):
+        r.extra_rcpt = b"log"
     v = run_case(r, sc, ctx.stats, M.local_ipv4())
     return [v] if v else []
